@@ -461,6 +461,12 @@ func runC06(c *ctx) {
 }
 
 var c06corpus = []string{
+	// auth-proxy range exhausted (two ports, three auth targets): WHICH path is left without a proxy (denied) must not
+	// depend on the order the backends map is visited (repaired by 85c4ee0)
+	"world cm~external-has-lua=true;auth-proxy=_front_auth:14415-14416 svc+d/app!http:80:8080!- ep~d/app!10.0.1.1:r:app-1 svc+d/api!http:80:8080!- ep~d/api!10.0.2.1:r:api-1 svc+d/web!http:80:8080!- ep~d/web!10.0.3.1:r:web-1 ing+d/i1@1!haproxy,-!auth-url=https://10.9.9.7:8443/auth!a.local>/:Prefix:app:80!-!- ing+d/i2@2!haproxy,-!auth-url=http://10.9.9.8:8000/auth!b.local>/:Prefix:api:80!-!- ing+d/i3@3!haproxy,-!auth-url=http://10.9.9.9:8000/auth!c.local>/:Prefix:web:80!-!-",
+	// two hosts claim the same redirect-from domain: where the old domain is redirected to must not depend on the
+	// iteration order of the hosts map (side note of the seed agent of C06g)
+	"world svc+d/app!http:80:8080!- ep~d/app!10.0.1.1:r:app-1 svc+d/api!http:80:8080!- ep~d/api!10.0.2.1:r:api-1 ing+d/i1@1!haproxy,-!redirect-from=old.local!a.local>/:Prefix:app:80!-!- ing+d/i2@2!haproxy,-!redirect-from=old.local!b.local>/:Prefix:api:80!-!- ing+d/i3@3!haproxy,-!redirect-from=old.local!c.local>/:Prefix:app:80!-!-",
 	// KNOWN FINDING order-dependent-config-fresh-authscheme: http:// and https:// auth-url naming one ip:port share one auth
 	// backend on which `ssl` is only raised; the https user goes away, `ssl` stays (a fresh controller writes none)
 	"hist cm~external-has-lua=true svc+e/web!http:80:8080!- svc+e/app!http:80:8080!- ing+e/i2@1!haproxy,-!auth-url=http://10.9.9.8:8000/auth!b.local>/:_:web:80!-!- ing+e/i3@2!haproxy,-!auth-url=https://10.9.9.8:8000/auth!a.local>/:_:app:80!-!- sync ing-e/i3 sync",
